@@ -76,3 +76,111 @@ def fmt_call(name, args):
 def short(x, n=300):
     s = str(x)
     return s if len(s) <= n else s[:n] + "..."
+
+
+# ------------------------------------------------------------------------------------------------ worlds
+from gen import pddl as G
+
+CLEAN_FEAT = dict(or_pre=False, forall_pre=False, child_first_types=False)
+
+
+def draw_features(ctx, base=None, allow=("subtypes", "constants", "neg", "equality", "numeric", "when", "forall_eff")):
+    """swarm configuration of the generated PDDL: each optional construct is switched on/off per run"""
+    c = ctx.s("cfg")
+    feat = dict(G.DEFAULT_FEAT)
+    feat.update(CLEAN_FEAT)
+    for k in allow:
+        feat[k] = c.chance(3, 4)
+    feat["max_objects"] = 3 + c.draw(3)
+    feat["max_actions"] = 1 + c.draw(3)
+    feat.update(base or {})
+    return feat
+
+
+class World:
+    """a generated (domain, problem) as AST + text"""
+
+    def __init__(self, ctx, feat, multi_agent=False, agents=0, noise_level=None):
+        t = ctx.s("workload")
+        self.feat = feat
+        self.D = G.gen_domain(t, feat, multi_agent=multi_agent)
+        self.P = G.gen_problem(t, self.D, feat, agents=agents)
+        self.objs = G.all_objects(self.D, self.P)
+        lvl = ctx.s("cfg").draw(3) if noise_level is None else noise_level
+        raw = G.render_domain(self.D, child_first=feat.get("child_first_types", False))
+        self.dom_text = G.noise(raw, ctx.s("workload"), lvl) if lvl else raw
+        self.dom_text_plain = raw
+
+    def problem_text(self, S=None, order=None):
+        P = self.P if S is None else dict(self.P, facts=set(S[0]), fluents=dict(S[1]))
+        return G.render_problem(self.D, P, order)
+
+    def action(self, name):
+        return self.D["actions"][name]
+
+
+def lib_world(ctx, W, S=None, order=None, tag=""):
+    """parse the world's domain and a problem whose init section is the abstract state S (default: the problem's
+    own).  -> (domain, problem, state).  Library exceptions propagate (caller decides what they mean)."""
+    d = parse_domain(ctx, W.dom_text, f"domain{tag}.pddl")
+    p = parse_problem(ctx, W.problem_text(S, order), d, f"problem{tag}.pddl")
+    return d, p, initial_state(p)
+
+
+def ref_walk(ctx, W, steps, stream=None):
+    """random walk of applicable, consistent calls in the reference interpreter from the problem's initial state.
+    -> (state, trail [(aname,args)])"""
+    t = stream or ctx.s("ops")
+    S = interp.init_state(W.P)
+    trail = []
+    for _ in range(steps):
+        done = False
+        for _try in range(6):
+            c = G.gen_call(t, W.D, W.P)
+            if c is None:
+                continue
+            a, args = c
+            try:
+                if interp.applicable(S, W.action(a), args, W.D, W.objs):
+                    S2, _ = interp.successor(S, W.action(a), args, W.D, W.objs)
+                    S = S2
+                    trail.append((a, args))
+                    done = True
+                    break
+            except (interp.Inconsistent, interp.Undefined):
+                continue
+        if not done:
+            break
+    return S, trail
+
+
+def force_applicable(S, act, args, W):
+    """adjust the abstract state so that the top-level positive/negative literals of the precondition hold for the
+    call (any state is in the properties' quantifier; this only raises the share of applicable calls)"""
+    b = interp.binding(act, args)
+    facts = set(S[0])
+    for f in act["pre"][1]:
+        if f[0] == "atom":
+            facts.add((f[1],) + tuple(b.get(a, a) for a in f[2]))
+        elif f[0] == "not":
+            facts.discard((f[1][1],) + tuple(b.get(a, a) for a in f[1][2]))
+    return (frozenset(facts), dict(S[1]))
+
+
+def pick_applicable_call(ctx, W, S, stream, tries=12, want_consistent=True):
+    """-> (S', (aname,args), successor, info) or None.  S' may differ from S (force_applicable)."""
+    for i in range(tries):
+        c = G.gen_call(stream, W.D, W.P)
+        if c is None:
+            continue
+        act = W.action(c[0])
+        S1 = force_applicable(S, act, c[1], W) if stream.chance(2, 3) else S
+        try:
+            if interp.applicable(S1, act, c[1], W.D, W.objs):
+                want, info = interp.successor(S1, act, c[1], W.D, W.objs)
+                return S1, c, want, info
+        except interp.Inconsistent:
+            ctx.probes["inconsistent_skipped"] += 1
+        except interp.Undefined:
+            ctx.probes["undefined_skipped"] += 1
+    return None
